@@ -154,14 +154,14 @@ type SackPeer struct {
 	ln   *net.TCPListener
 
 	// behaviour
-	ISN       uint32 // becomes the driver's localInitSeq (the SYN-ACK's ack number)
-	ServerISN uint32
-	SackPerm  bool
-	TS        bool
-	TSVal     uint32
-	TSEcr     uint32
+	ISN        uint32 // becomes the driver's localInitSeq (the SYN-ACK's ack number)
+	ServerISN  uint32
+	SackPerm   bool
+	TS         bool
+	TSVal      uint32
+	TSEcr      uint32
 	ShowSynAck bool
-	ExtraOpts []byte
+	ExtraOpts  []byte
 
 	mu       sync.Mutex
 	conns    []net.Conn
